@@ -260,14 +260,15 @@ def coefficients(ctx):
     lf.env[pname] = prop
     stmts = body[1:]
     # last statement stores the result
-    ctx.anchor(isinstance(stmts[-1], ast.Expr) and ast.unparse(
-        stmts[-1].value).startswith("setattr(self, '_eta_' + "),
+    from ..core.template import same as same_t
+    ctx.anchor(isinstance(stmts[-1], ast.Expr) and same_t(
+        'setattr(self, __, __)', stmts[-1].value) is not None,
         'setattr(self, "_eta_" + name[-1], eta)')
     setcall = stmts[-1].value
     stored = ast.unparse(setcall.args[2])
     ctx.check('C02.O4.eta', 'VolumeModel eta attribute name',
-              ast.unparse(setcall.args[1]).replace(' ', '') ==
-              f"'_eta_'+{lv}[-1]", 'eta is stored under a name not derived '
+              same_t(f"'_eta_' + {lv}[-1]", setcall.args[1]) is not None,
+              'eta is stored under a name not derived '
               'from the property direction', ctx.where(mm, stmts[-1]))
     paths = straight_paths(stmts[:-1], lf)
     seen = set()
